@@ -49,9 +49,47 @@ type baseField struct {
 	FType string `json:"ftype"`
 }
 
+type baseVar struct {
+	Pkg  string `json:"pkg"`
+	Name string `json:"name"`
+	Type string `json:"type"`
+}
+
+type baseType struct {
+	Pkg     string   `json:"pkg"`
+	Name    string   `json:"name"`
+	Shape   string   `json:"shape"` // underlying type with field types only (field names elided for structs)
+	Methods []string `json:"methods"`
+}
+
 type baseTable struct {
 	Funcs  []baseFunc  `json:"funcs"`
 	Fields []baseField `json:"fields"`
+	Vars   []baseVar   `json:"vars"`
+	Types  []baseType  `json:"types"`
+}
+
+// typeShape: the underlying type, with struct field names elided (field renames are handled separately).
+func typeShape(t types.Type, q types.Qualifier) string {
+	if st, ok := t.Underlying().(*types.Struct); ok {
+		var fs []string
+		for i := 0; i < st.NumFields(); i++ {
+			fs = append(fs, types.TypeString(st.Field(i).Type(), q))
+		}
+		return "struct{" + strings.Join(fs, "; ") + "}"
+	}
+	return types.TypeString(t.Underlying(), q)
+}
+
+func methodNames(tn *types.TypeName) []string {
+	var out []string
+	if n, ok := tn.Type().(*types.Named); ok {
+		for i := 0; i < n.NumMethods(); i++ {
+			out = append(out, n.Method(i).Name())
+		}
+	}
+	sort.Strings(out)
+	return out
 }
 
 func loadBaseline() *baseTable {
@@ -148,6 +186,16 @@ func BaselineOf(p *Prog) []byte {
 			for i := 0; i < st.NumFields(); i++ {
 				f := st.Field(i)
 				t.Fields = append(t.Fields, baseField{Pkg: Rel(path), Type: name, Name: f.Name(), FType: types.TypeString(f.Type(), q)})
+			}
+		}
+		for _, name := range scope.Names() {
+			switch o := scope.Lookup(name).(type) {
+			case *types.Var:
+				t.Vars = append(t.Vars, baseVar{Pkg: Rel(path), Name: name, Type: types.TypeString(o.Type(), q)})
+			case *types.TypeName:
+				if !o.IsAlias() {
+					t.Types = append(t.Types, baseType{Pkg: Rel(path), Name: name, Shape: typeShape(o.Type(), q), Methods: methodNames(o)})
+				}
 			}
 		}
 	}
@@ -267,6 +315,76 @@ func renameBack(p *Prog) (map[string][]byte, []string) {
 					renames[cands[0]] = bn
 					notes = append(notes, fmt.Sprintf("%s: %s.%s <- %s", rel, tname, bn, cands[0].Name()))
 				}
+			}
+		}
+	}
+	// ---- package-level variables and named types
+	for path, pk := range p.Pkgs {
+		rel := Rel(path)
+		q := relQualifier(pk.Types)
+		scope := pk.Types.Scope()
+		baseV := map[string]string{}
+		for _, v := range base.Vars {
+			if v.Pkg == rel {
+				baseV[v.Name] = v.Type
+			}
+		}
+		for bn, bt := range baseV {
+			if scope.Lookup(bn) != nil || ast.IsExported(bn) {
+				continue
+			}
+			var cands []types.Object
+			for _, cn := range scope.Names() {
+				cv, ok := scope.Lookup(cn).(*types.Var)
+				if !ok || ast.IsExported(cn) {
+					continue
+				}
+				if _, known := baseV[cn]; known {
+					continue
+				}
+				if types.TypeString(cv.Type(), q) == bt {
+					cands = append(cands, cv)
+				}
+			}
+			missingSame := 0
+			for bn2, bt2 := range baseV {
+				if scope.Lookup(bn2) == nil && bt2 == bt {
+					missingSame++
+				}
+			}
+			if len(cands) == 1 && missingSame == 1 {
+				renames[cands[0]] = bn
+				notes = append(notes, fmt.Sprintf("%s: var %s <- %s", rel, bn, cands[0].Name()))
+			}
+		}
+		baseT := map[string]baseType{}
+		for _, t := range base.Types {
+			if t.Pkg == rel {
+				baseT[t.Name] = t
+			}
+		}
+		for bn, bt := range baseT {
+			if scope.Lookup(bn) != nil || ast.IsExported(bn) {
+				continue
+			}
+			var cands []types.Object
+			for _, cn := range scope.Names() {
+				ct, ok := scope.Lookup(cn).(*types.TypeName)
+				if !ok || ast.IsExported(cn) || ct.IsAlias() {
+					continue
+				}
+				if _, known := baseT[cn]; known {
+					continue
+				}
+				// the shape may mention the type's own (new) name: compare after substituting it
+				shape := strings.ReplaceAll(typeShape(ct.Type(), q), cn, bn)
+				if shape == bt.Shape && len(methodNames(ct)) == len(bt.Methods) {
+					cands = append(cands, ct)
+				}
+			}
+			if len(cands) == 1 {
+				renames[cands[0]] = bn
+				notes = append(notes, fmt.Sprintf("%s: type %s <- %s", rel, bn, cands[0].Name()))
 			}
 		}
 	}
